@@ -11,7 +11,7 @@ from vf.prog import ops_list, World, execute, expect_sequential, expect_transfer
 PID = "C11"
 RULE = (
     "case = 1..3 small labware + device + worklist max_volume (small, so that volumes split) + auto_split on/off + a program of 1..14 "
-    "successful operations mixing add / remove / aspirate / dispense / transfer (1..6 triples, zero volumes, all-zero "
+    "operations mixing add / remove / aspirate / dispense / transfer (1..6 triples, zero volumes, all-zero "
     "transfers, splits, same-labware, label present / absent / empty) / distribute (also volume 0 and source = "
     "destination). After every operation, for every labware: prefix preservation, number of new entries, newest "
     "entry == volumes, label (+ large-volume note with the number of extra A/D pairs counted from the records), "
@@ -27,7 +27,7 @@ ASSUMPTIONS = [
 BUDGET = {"quick": (4, 300), "thorough": (16, 4000)}
 KNOWN_KINDS = {}
 STRATA = ["transfer", "distribute", "direct", "mixed"]
-REQUIRED_CLASSES = ["op:transfer", "op:distribute", "op:add", "op:remove", "op:aspirate", "op:dispense", "split", "all-zero-transfer", "zero-in-transfer", "same-labware-transfer", "distribute-src=dst", "label:absent", "label:present", "auto_split:on", "auto_split:off"]
+REQUIRED_CLASSES = ["op:transfer", "op:distribute", "op:add", "op:remove", "op:aspirate", "op:dispense", "split", "all-zero-transfer", "zero-in-transfer", "same-labware-transfer", "distribute-src=dst", "label:absent", "label:present", "auto_split:on", "auto_split:off", "refused-transfer-in-between"]
 
 
 @st.composite
@@ -47,7 +47,9 @@ def _case(draw, focus, tier="quick"):
     t = st.one_of(op_transfer(vs, max_n=6), op_transfer(vs, max_n=6), op_transfer(vs, max_n=3), op_transfer(zeroish, max_n=3), op_transfer(st.just(0), max_n=3))
     d = op_distribute(st.one_of(vs, st.just(0)), max_n=4)
     direct = op_direct(vs, max_n=4)
-    anyop = st.one_of(t, d, direct, direct)
+    # a transfer that is refused at its second triple (after one completed pair): the caller catches the error and goes on
+    refused = op_transfer(st.just(1.0), max_n=3).map(lambda o: dict(o, refused=True))
+    anyop = st.one_of(t, d, direct, direct, refused)
     fop = {"transfer": t, "distribute": d, "direct": direct, "mixed": anyop}[focus]
     return {"labs": labs, "device": draw(st.sampled_from(["evo", "fluent"])), "M": M, "auto_split": draw(st.sampled_from([True, True, False])), "ops": draw(ops_list(st.one_of(fop, anyop), 1, 14 if tier == "quick" else 25))}
 
@@ -95,7 +97,27 @@ def check_case(case) -> Obs:
             op["cap"] = M
         if kind == "transfer":
             op["cap"] = 4 * M if auto_split else M
+        if op.get("refused"):
+            op["vols"] = {"t": "list", "v": [{"f": 0.1}, {"over": 5.0}, {"f": 0.1}]}
+            op["sw"] = {"t": "list", "w": [[0, 0], [1, 0], [0, 1]]}
+            op["dw"] = {"t": "list", "w": [[0, 0], [0, 0], [0, 0]]}
+            op["pb"] = "source"
         conc = resolve(world, op)
+        if op.get("refused"):
+            step = execute(world, conc)
+            obs.units += 1
+            if step.exc is not None:
+                obs.cls("refused-transfer-in-between")
+            # whatever a refused operation logged: earlier entries must be intact
+            for i, lw in enumerate(world.labs):
+                h = lw.history
+                old = prev[i]
+                if len(h) < len(old) or any(h[j][0] != lab or not np.array_equal(h[j][1], copy) for j, (lab, arr, copy) in enumerate(old)):
+                    obs.bad("C11/prefix-altered", f"op {k}: a transfer that {'raised ' + type(step.exc).__name__ if step.exc else 'returned'} altered earlier history entries of {specs[i]['name']}")
+                prev[i] = [(lab, arr, arr.copy()) for lab, arr in h]
+            if obs.violations:
+                break
+            continue
         if kind == "distribute" and (not conc["dflat"] or conc["vol"] > M):
             continue
         if kind == "transfer":
